@@ -9,7 +9,6 @@ Record segment := {
   s_padb : bytes         (* pad bytes (trailer); empty iff the padding bit is clear *)
 }.
 
-Definition nonnil {A} (l : list A) : bool := match l with [] => false | _ => true end.
 
 Definition seg_len (s : segment) : Z := 4 + zlen (s_chunk s) + zlen (s_padb s).
 
